@@ -198,6 +198,18 @@ Proof. unfold filter_referrers. destruct (is_empty a); [reflexivity|apply filter
 
 (* ---------- the client loop against the registry ---------- *)
 
+Lemma NoDup_map_filter {A B} (g : A -> B) (f : A -> bool) l :
+  NoDup (map g l) -> NoDup (map g (filter f l)).
+Proof.
+  induction l as [|x l IH]; simpl; intro H; [constructor|].
+  inversion H as [|? ? Hn Hd]; subst.
+  destruct (f x); simpl; [|now apply IH].
+  constructor; [|now apply IH]. intro Hi. apply Hn.
+  apply in_map_iff in Hi as (y & Ey & Hy). apply filter_In in Hy as [Hy _].
+  apply in_map_iff. now exists y.
+Qed.
+
+
 Lemma firstn_plus {A} (m n : nat) (l : list A) :
   firstn (m + n) l = firstn m l ++ firstn n (skipn m l).
 Proof.
@@ -205,10 +217,83 @@ Proof.
   destruct l as [|x l]; simpl; [now rewrite firstn_nil|]. now rewrite IH.
 Qed.
 
-(* the URL a registry's next link stands for: same path, cursor x, the registry's extra
-   parameters, then the other parameters of the request *)
-Definition link_target (d : decision) (rq : url) (x : str) : url :=
-  mkUrl (u_path rq) ((k_last, VS x) :: d_extra d ++ qdel k_last (u_query rq)).
+Definition cursor_ok (cu : cursor) : Prop :=
+  match cu with CLast => True | CToken k _ => k <> k_n /\ k <> k_last /\ k <> k_at end.
+
+Lemma strip_app p x : strip p (p ++ x) = x.
+Proof. unfold strip. rewrite firstn_app_exact, str_eqb_refl. apply skipn_app_exact. Qed.
+
+Lemma ckey_neq_n cu : cursor_ok cu -> ckey cu <> k_n.
+Proof. destruct cu; simpl; [intros _; intro H; symmetry in H; now apply k_n_neq_last in H|tauto]. Qed.
+Lemma ckey_neq_at cu : cursor_ok cu -> ckey cu <> k_at.
+Proof. destruct cu; simpl; [intros _; exact k_last_neq_at|tauto]. Qed.
+
+(* reading back the cursor the registry wrote *)
+Lemma cursor_read_link cu q x : cursor_read cu ((ckey cu, VS (cenc cu x)) :: q) = x.
+Proof.
+  destruct cu as [|k s]; unfold cursor_read, qget_s; cbn [ckey cenc qget]; rewrite str_eqb_refl; [reflexivity|].
+  apply strip_app.
+Qed.
+
+(* a request without the registry's own cursor: the client's `last` decides *)
+Lemma cursor_read_start cu q :
+  cu = CLast \/ qget (ckey cu) q = None -> cursor_read cu q = qget_s k_last q.
+Proof.
+  destruct cu as [|k s]; [reflexivity|]. intros [H|H]; [discriminate|].
+  unfold cursor_read. cbn [ckey] in H. now rewrite H.
+Qed.
+
+(* the client's next request still carries the cursor the registry wrote *)
+Lemma cursor_read_request cu c p x q :
+  cursor_ok cu ->
+  cursor_read cu (u_query (mk_request c (mkUrl p ((ckey cu, VS (cenc cu x)) :: q)) [])) = x.
+Proof.
+  intro Hcu. unfold mk_request. cbn [is_empty negb u_query]. rewrite andb_false_r.
+  destruct (0 <? c_n c)%Z; [|apply cursor_read_link].
+  unfold qset. cbn [qdel]. rewrite (str_eqb_neq (ckey cu) k_n) by (now apply ckey_neq_n).
+  destruct cu as [|ck0 s0]; unfold cursor_read, qget_s; cbn [ckey cenc qget].
+  - rewrite (str_eqb_neq k_n k_last) by exact k_n_neq_last. now rewrite str_eqb_refl.
+  - rewrite (str_eqb_neq k_n ck0) by (intro E; symmetry in E; now apply (ckey_neq_n (CToken ck0 s0) Hcu) in E).
+    rewrite str_eqb_refl. apply strip_app.
+Qed.
+
+Lemma mk_request_other_pre c u last k :
+  k <> k_n -> k <> k_last -> qget k (u_query (mk_request c u last)) = qget k (u_query u).
+Proof.
+  intros Hn Hl. unfold mk_request. simpl.
+  assert (A : forall q, qget k (if (0 <? c_n c)%Z then qset k_n (VN (Z.to_N (c_n c))) q else q) = qget k q).
+  { intro q. destruct (0 <? c_n c)%Z; [|reflexivity]. now apply qget_qset_other. }
+  destruct (sends_last (c_kind c) && negb (is_empty last)).
+  - rewrite qget_qset_other by exact Hl. apply A.
+  - apply A.
+Qed.
+
+Lemma start_cursor cu c path q0 last0 :
+  cursor_ok cu -> (forall k s, cu = CToken k s -> qget k q0 = None) ->
+  cursor_read cu (u_query (mk_request c (mkUrl path q0) last0)) =
+  qget_s k_last (u_query (mk_request c (mkUrl path q0) last0)).
+Proof.
+  intros Hcu H. apply cursor_read_start. destruct cu as [|k s]; [now left|right].
+  cbn [ckey]. destruct Hcu as (Hn & Hl & _).
+  rewrite mk_request_other_pre by assumption. cbn [u_query]. now apply (H k s).
+Qed.
+
+Lemma referrers_query_other a k : k <> k_at -> qget k (if is_empty a then [] else [(k_at, VS a)]) = None.
+Proof.
+  intro H. destruct (is_empty a); [reflexivity|]. cbn [qget].
+  rewrite (str_eqb_neq k_at k); [reflexivity|]. intro E. apply H. now symmetry.
+Qed.
+
+Lemma mk_request_other c u last k :
+  k <> k_n -> k <> k_last -> qget k (u_query (mk_request c u last)) = qget k (u_query u).
+Proof.
+  intros Hn Hl. unfold mk_request. simpl.
+  assert (A : forall q, qget k (if (0 <? c_n c)%Z then qset k_n (VN (Z.to_N (c_n c))) q else q) = qget k q).
+  { intro q. destruct (0 <? c_n c)%Z; [|reflexivity]. now apply qget_qset_other. }
+  destruct (sends_last (c_kind c) && negb (is_empty last)).
+  - rewrite qget_qset_other by exact Hl. apply A.
+  - apply A.
+Qed.
 
 Lemma last_name_in (rest : list item) m :
   (1 <= m)%nat -> (m <= length rest)%nat -> In (last_name (firstn m rest)) (map fst rest).
@@ -226,29 +311,38 @@ Section Listing.
   Variable trailer : nat -> str.
   Variable resolve : url -> str -> option url.
   Variable c : cfg.
+  Variable cu : cursor.                  (* the registry's continuation: `last` or an opaque token *)
+  Variable npath : nat -> str -> str.    (* the path its next links point to *)
+  Variable vis : item -> bool.           (* the entries it shows; pages may be empty although items remain *)
+
+  (* the URL the registry's next link of answer i stands for *)
+  Definition link_target (i : nat) (rq : url) (x : str) : url :=
+    link_url cu (npath i (u_path rq)) (ds i) rq x.
 
   Hypothesis Hnodup : NoDup (map fst L).
   Hypothesis Hnonempty : forall it, In it L -> fst it <> [].
   (* any Link form that net/url resolves to the intended target (cursor x, the
      registry's extra parameters, the other parameters of the request) *)
   Hypothesis Hrender_gt : forall i base x, In x (map fst L) ->
-    contains c_gt (render i base (link_target (ds i) base x)) = false.
+    contains c_gt (render i base (link_target i base x)) = false.
   Hypothesis Hresolve : forall i base x, In x (map fst L) ->
-    resolve base (render i base (link_target (ds i) base x)) = Some (link_target (ds i) base x).
+    resolve base (render i base (link_target i base x)) = Some (link_target i base x).
   (* the link does not change the artifactType the request asked for *)
   Hypothesis Hextra : c_kind c = KReferrers -> forall i, qget k_at (d_extra (ds i)) = None.
+  (* an opaque cursor key does not collide with n / last / artifactType *)
+  Hypothesis Hcu : cursor_ok cu.
 
   Definition view (page : list item) : list item :=
-    match c_kind c with KReferrers => filter_referrers page (c_at c) | _ => page end.
+    match c_kind c with KReferrers => filter_referrers (filter vis page) (c_at c) | _ => filter vis page end.
 
-  Definition serve := reg_serve (c_kind c) L cap ds render trailer.
-  Definition rest_of (rq : url) := after (qget_s k_last (u_query rq)) L.
+  Definition serve := reg_serve (c_kind c) cu npath vis L cap ds render trailer.
+  Definition rest_of (rq : url) := after (cursor_read cu (u_query rq)) L.
   Definition m_of (i : nat) (rq : url) := page_len cap rq (ds i).
   Definition link_query (i : nat) (rq : url) : query :=
-    (k_last, VS (last_name (firstn (m_of i rq) (rest_of rq)))) :: d_extra (ds i) ++ qdel k_last (u_query rq).
+    u_query (link_url cu [] (ds i) rq (last_name (firstn (m_of i rq) (rest_of rq)))).
 
   Lemma view_app a b0 : view (a ++ b0) = view a ++ view b0.
-  Proof. unfold view. destruct (c_kind c); try reflexivity. apply filter_referrers_app. Qed.
+  Proof. unfold view. rewrite filter_app. destruct (c_kind c); try reflexivity. apply filter_referrers_app. Qed.
 
   Lemma m_of_pos i rq : (1 <= m_of i rq)%nat.
   Proof. unfold m_of, page_len. lia. Qed.
@@ -256,7 +350,7 @@ Section Listing.
   Lemma serve_link i rq :
     rs_link (serve i rq) =
     if (m_of i rq <? length (rest_of rq))%nat
-    then c_lt :: render i rq (mkUrl (u_path rq) (link_query i rq)) ++ c_gt :: trailer i
+    then c_lt :: render i rq (mkUrl (npath i (u_path rq)) (link_query i rq)) ++ c_gt :: trailer i
     else [].
   Proof.
     unfold rs_link, serve, reg_serve, reg_page. cbn [rs_links].
@@ -331,24 +425,25 @@ Section Listing.
       apply Nat.ltb_lt in Emore.
       assert (Hin : In (last_name (firstn m rest)) (map fst L)).
       { rewrite HL, map_app. apply in_or_app. right. apply last_name_in; lia. }
-      assert (Etgt : mkUrl (u_path rq) (link_query i rq) = link_target (ds i) rq (last_name (firstn m rest))).
-      { unfold link_query, link_target. fold m. now rewrite Hrest. }
+      assert (Etgt : mkUrl (npath i (u_path rq)) (link_query i rq) = link_target i rq (last_name (firstn m rest))).
+      { unfold link_query, link_target, link_url. cbn [u_query]. fold m. now rewrite Hrest. }
       rewrite Etgt.
       rewrite parse_link_wellformed by (now apply Hrender_gt).
       rewrite Hresolve by exact Hin.
-      set (tgt := link_target (ds i) rq (last_name (firstn m rest))).
-      assert (Hlast : qget k_last (u_query (mk_request c tgt [])) = Some (VS (last_name (firstn m rest)))).
-      { rewrite mk_request_last. cbn [is_empty negb]. rewrite andb_false_r.
-        unfold tgt, link_target. cbn [u_query qget]. now rewrite str_eqb_refl. }
+      set (tgt := link_target i rq (last_name (firstn m rest))).
+      assert (Hlast : cursor_read cu (u_query (mk_request c tgt [])) = last_name (firstn m rest)).
+      { unfold tgt, link_target, link_url. now apply cursor_read_request. }
       assert (Hrest' : rest_of (mk_request c tgt []) = skipn m rest).
-      { unfold rest_of, qget_s. rewrite Hlast. eapply after_page; eauto. }
+      { unfold rest_of. rewrite Hlast. eapply after_page; eauto. }
       assert (HL' : L = (pre ++ firstn m rest) ++ skipn m rest).
       { rewrite <- app_assoc. now rewrite firstn_skipn. }
       assert (Hat' : c_kind c = KReferrers -> qget_s k_at (u_query (mk_request c tgt [])) = c_at c).
       { intro K. rewrite <- (Hat K). unfold qget_s. rewrite mk_request_at.
-        unfold tgt, link_target. cbn [u_query qget].
-        rewrite (str_eqb_neq k_last k_at) by exact k_last_neq_at.
-        rewrite qget_app, (Hextra K). rewrite qget_qdel_other; [|intro E; symmetry in E; now apply k_last_neq_at in E].
+        unfold tgt, link_target, link_url. cbn [u_query qget].
+        rewrite (str_eqb_neq (ckey cu) k_at) by (now apply ckey_neq_at).
+        rewrite qget_app, (Hextra K).
+        rewrite qget_qdel_other by (intro E; symmetry in E; now apply (ckey_neq_at cu Hcu) in E).
+        rewrite qget_qdel_other; [|intro E; symmetry in E; now apply k_last_neq_at in E].
         reflexivity. }
       assert (Hlen : (length (skipn m rest) < fuel)%nat) by (rewrite skipn_length; lia).
       set (pg := if delivered c (view (firstn m rest)) then [view (firstn m rest)] else []).
@@ -398,24 +493,25 @@ Section Listing.
     - apply Nat.ltb_lt in Emore.
       assert (Hin : In (last_name (firstn m rest)) (map fst L)).
       { rewrite HL, map_app. apply in_or_app. right. apply last_name_in; lia. }
-      assert (Etgt : mkUrl (u_path rq) (link_query i rq) = link_target (ds i) rq (last_name (firstn m rest))).
-      { unfold link_query, link_target. fold m. now rewrite Hrest. }
+      assert (Etgt : mkUrl (npath i (u_path rq)) (link_query i rq) = link_target i rq (last_name (firstn m rest))).
+      { unfold link_query, link_target, link_url. cbn [u_query]. fold m. now rewrite Hrest. }
       rewrite Etgt.
       rewrite parse_link_wellformed by (now apply Hrender_gt).
       rewrite Hresolve by exact Hin.
-      set (tgt := link_target (ds i) rq (last_name (firstn m rest))).
-      assert (Hlast : qget k_last (u_query (mk_request c tgt [])) = Some (VS (last_name (firstn m rest)))).
-      { rewrite mk_request_last. cbn [is_empty negb]. rewrite andb_false_r.
-        unfold tgt, link_target. cbn [u_query qget]. now rewrite str_eqb_refl. }
+      set (tgt := link_target i rq (last_name (firstn m rest))).
+      assert (Hlast : cursor_read cu (u_query (mk_request c tgt [])) = last_name (firstn m rest)).
+      { unfold tgt, link_target, link_url. now apply cursor_read_request. }
       assert (Hrest' : rest_of (mk_request c tgt []) = skipn m rest).
-      { unfold rest_of, qget_s. rewrite Hlast. eapply after_page; eauto. }
+      { unfold rest_of. rewrite Hlast. eapply after_page; eauto. }
       assert (HL' : L = (pre ++ firstn m rest) ++ skipn m rest).
       { rewrite <- app_assoc. now rewrite firstn_skipn. }
       assert (Hat' : c_kind c = KReferrers -> qget_s k_at (u_query (mk_request c tgt [])) = c_at c).
       { intro K. rewrite <- (Hat K). unfold qget_s. rewrite mk_request_at.
-        unfold tgt, link_target. cbn [u_query qget].
-        rewrite (str_eqb_neq k_last k_at) by exact k_last_neq_at.
-        rewrite qget_app, (Hextra K). rewrite qget_qdel_other; [|intro E; symmetry in E; now apply k_last_neq_at in E].
+        unfold tgt, link_target, link_url. cbn [u_query qget].
+        rewrite (str_eqb_neq (ckey cu) k_at) by (now apply ckey_neq_at).
+        rewrite qget_app, (Hextra K).
+        rewrite qget_qdel_other by (intro E; symmetry in E; now apply (ckey_neq_at cu Hcu) in E).
+        rewrite qget_qdel_other; [|intro E; symmetry in E; now apply k_last_neq_at in E].
         reflexivity. }
       assert (Hlen : (length (skipn m rest) < fuel)%nat) by (rewrite skipn_length; lia).
       set (pg := if delivered c (view (firstn m rest)) then [view (firstn m rest)] else []).
@@ -447,35 +543,37 @@ Proof. induction pre as [|a pre IH]; simpl; intro H; [exact H|]. inversion H; au
 Theorem listing_exactly_once :
   forall (L : list item) (cap : nat) (ds : nat -> decision)
          (render : nat -> url -> url -> str) (trailer : nat -> str)
-         (resolve : url -> str -> option url) (c : cfg) (path last0 : str) (fuel : nat),
+         (resolve : url -> str -> option url) (c : cfg) (cu : cursor) (npath : nat -> str -> str) (vis : item -> bool)
+         (path last0 : str) (fuel : nat),
+    cursor_ok cu ->
     c_kind c <> KReferrers ->
     NoDup (map fst L) -> (forall it, In it L -> fst it <> []) ->
     (forall i base x, In x (map fst L) ->
-       contains c_gt (render i base (link_target (ds i) base x)) = false) ->
+       contains c_gt (render i base (link_target ds cu npath i base x)) = false) ->
     (forall i base x, In x (map fst L) ->
-       resolve base (render i base (link_target (ds i) base x)) = Some (link_target (ds i) base x)) ->
+       resolve base (render i base (link_target ds cu npath i base x)) = Some (link_target ds cu npath i base x)) ->
     (forall i, (Z.of_N (d_doc_len (ds i)) <= eff_limit (c_limit c))%Z) ->
     (length (after last0 L) < fuel)%nat ->
-    let t := loop (reg_serve (c_kind c) L cap ds render trailer) resolve (fun _ => false) c
+    let t := loop (reg_serve (c_kind c) cu npath vis L cap ds render trailer) resolve (fun _ => false) c
                   fuel 0 0 (mkUrl path []) last0 in
     t_out t = Done /\
-    concat (t_pages t) = after last0 L /\
+    concat (t_pages t) = filter vis (after last0 L) /\
     NoDup (map fst (concat (t_pages t))) /\
     (length (t_reqs t) <= S (length (after last0 L)))%nat.
 Proof.
-  intros L cap ds render trailer resolve c path last0 fuel K Hnd Hne Hgt Hres Hfit Hfuel.
+  intros L cap ds render trailer resolve c cu npath vis path last0 fuel Hcu K Hnd Hne Hgt Hres Hfit Hfuel.
   destruct (after_suffix last0 L) as [pre Hpre].
-  assert (Hrest : rest_of L (mk_request c (mkUrl path []) last0) = after last0 L).
-  { unfold rest_of, qget_s. rewrite mk_request_last. cbn [u_query qget].
+  assert (Hrest : rest_of L cu (mk_request c (mkUrl path []) last0) = after last0 L).
+  { unfold rest_of. rewrite start_cursor by (auto; reflexivity). unfold qget_s. rewrite mk_request_last. cbn [u_query qget].
     assert (S : sends_last (c_kind c) = true) by (destruct (c_kind c); try reflexivity; contradiction).
     rewrite S. destruct last0; reflexivity. }
-  destruct (loop_listing L cap ds render trailer resolve c Hnd Hne Hgt Hres
-              ltac:(intro; contradiction) Hfit fuel 0%nat 0%nat (mkUrl path []) last0 (after last0 L) pre
+  destruct (loop_listing L cap ds render trailer resolve c cu npath vis Hnd Hne Hgt Hres
+              ltac:(intro; contradiction) Hcu Hfit fuel 0%nat 0%nat (mkUrl path []) last0 (after last0 L) pre
               Hrest Hpre ltac:(intro; contradiction) Hfuel) as (O & P & R).
-  assert (V : view c (after last0 L) = after last0 L).
+  assert (V : view c vis (after last0 L) = filter vis (after last0 L)).
   { unfold view. destruct (c_kind c); try reflexivity; contradiction. }
   rewrite V in P. unfold serve in *. repeat split; auto.
-  rewrite P. rewrite Hpre in Hnd. rewrite map_app in Hnd. now apply NoDup_suffix in Hnd.
+  rewrite P. apply NoDup_map_filter. rewrite Hpre in Hnd. rewrite map_app in Hnd. now apply NoDup_suffix in Hnd.
 Qed.
 
 Definition referrers_query (a : str) : query := if is_empty a then [] else [(k_at, VS a)].
@@ -485,32 +583,35 @@ Definition referrers_query (a : str) : query := if is_empty a then [] else [(k_a
 Theorem referrers_exactly_once :
   forall (L : list item) (cap : nat) (ds : nat -> decision)
          (render : nat -> url -> url -> str) (trailer : nat -> str)
-         (resolve : url -> str -> option url) (c : cfg) (path : str) (fuel : nat),
+         (resolve : url -> str -> option url) (c : cfg) (cu : cursor) (npath : nat -> str -> str) (vis : item -> bool)
+         (path : str) (fuel : nat),
+    cursor_ok cu ->
     c_kind c = KReferrers ->
     NoDup (map fst L) -> (forall it, In it L -> fst it <> []) ->
     (forall i base x, In x (map fst L) ->
-       contains c_gt (render i base (link_target (ds i) base x)) = false) ->
+       contains c_gt (render i base (link_target ds cu npath i base x)) = false) ->
     (forall i base x, In x (map fst L) ->
-       resolve base (render i base (link_target (ds i) base x)) = Some (link_target (ds i) base x)) ->
+       resolve base (render i base (link_target ds cu npath i base x)) = Some (link_target ds cu npath i base x)) ->
     (forall i, (Z.of_N (d_doc_len (ds i)) <= eff_limit (c_limit c))%Z) ->
     (forall i, qget k_at (d_extra (ds i)) = None) ->
     (length L < fuel)%nat ->
-    let t := loop (reg_serve KReferrers L cap ds render trailer) resolve (fun _ => false) c
+    let t := loop (reg_serve KReferrers cu npath vis L cap ds render trailer) resolve (fun _ => false) c
                   fuel 0 0 (mkUrl path (referrers_query (c_at c))) [] in
     t_out t = Done /\
-    concat (t_pages t) = filter_referrers L (c_at c) /\
+    concat (t_pages t) = filter_referrers (filter vis L) (c_at c) /\
     (length (t_reqs t) <= S (length L))%nat.
 Proof.
-  intros L cap ds render trailer resolve c path fuel K Hnd Hne Hgt Hres Hfit Hex Hfuel.
-  assert (Hrest : rest_of L (mk_request c (mkUrl path (referrers_query (c_at c))) []) = L).
-  { unfold rest_of, qget_s. rewrite mk_request_last. rewrite K. cbn [sends_last andb u_query].
+  intros L cap ds render trailer resolve c cu npath vis path fuel Hcu K Hnd Hne Hgt Hres Hfit Hex Hfuel.
+  assert (Hrest : rest_of L cu (mk_request c (mkUrl path (referrers_query (c_at c))) []) = L).
+  { unfold rest_of. rewrite start_cursor by (auto; intros k s E; apply referrers_query_other; rewrite E in Hcu; apply Hcu).
+    unfold qget_s. rewrite mk_request_last. rewrite K. cbn [sends_last andb u_query].
     unfold referrers_query. destruct (is_empty (c_at c)); reflexivity. }
   assert (Hat : c_kind c = KReferrers ->
                 qget_s k_at (u_query (mk_request c (mkUrl path (referrers_query (c_at c))) [])) = c_at c).
   { intros _. unfold qget_s. rewrite mk_request_at. cbn [u_query]. unfold referrers_query.
     destruct (c_at c) as [|x a]; [reflexivity|]. cbn [is_empty qget]. now rewrite str_eqb_refl. }
-  pose proof (loop_listing L cap ds render trailer resolve c Hnd Hne Hgt Hres
-              (fun _ => Hex) Hfit fuel 0%nat 0%nat (mkUrl path (referrers_query (c_at c))) [] L []
+  pose proof (loop_listing L cap ds render trailer resolve c cu npath vis Hnd Hne Hgt Hres
+              (fun _ => Hex) Hcu Hfit fuel 0%nat 0%nat (mkUrl path (referrers_query (c_at c))) [] L []
               Hrest eq_refl Hat Hfuel) as H.
   unfold serve in H. rewrite K in H. unfold view in H. rewrite K in H. exact H.
 Qed.
@@ -661,9 +762,17 @@ Proof. intro H. unfold eff_limit. apply Z.leb_le in H. now rewrite H. Qed.
 Lemma eff_limit_set n : (0 < n)%Z -> eff_limit n = n.
 Proof. intro H. unfold eff_limit. apply Z.leb_gt in H. now rewrite H. Qed.
 
-Lemma max_read_le limit total :
-  (Z.of_N (max_read limit total) <= eff_limit limit)%Z /\ (max_read limit total <= total)%N.
-Proof. unfold max_read. pose proof (eff_limit_pos limit). lia. Qed.
+(* whatever reads through limitReader obtains a prefix of the body of at most the limit *)
+Lemma seen_spec limit body :
+  (Z.of_nat (length (seen limit body)) <= eff_limit limit)%Z /\
+  (exists rest, body = seen limit body ++ rest) /\
+  ((Z.of_nat (length body) <= eff_limit limit)%Z -> seen limit body = body).
+Proof.
+  pose proof (eff_limit_pos limit) as Hp. unfold seen. split; [|split].
+  - pose proof (firstn_le_length (Z.to_nat (eff_limit limit)) body). lia.
+  - exists (skipn (Z.to_nat (eff_limit limit)) body). symmetry. apply firstn_skipn.
+  - intro H. apply firstn_all2. lia.
+Qed.
 
 Lemma limit_size_spec limit size :
   limit_size_rejects limit size = true <-> (eff_limit limit < size)%Z.
@@ -679,9 +788,6 @@ Section Bytes.
   Definition is_document (d : str) (v : A) : Prop :=
     (forall tail, decode_stream (d ++ tail) = Some v) /\
     (forall k, (k < length d)%nat -> decode_stream (firstn k d) = None).
-
-  (* io.LimitReader *)
-  Definition seen (limit : Z) (body : str) : str := firstn (Z.to_nat (eff_limit limit)) body.
 
   Lemma limit_bytes d v pad limit :
     is_document d v ->
@@ -904,7 +1010,10 @@ Qed.
 Lemma limit_spec :
   (forall n, (n <= 0)%Z -> eff_limit n = defaultMaxMetadataBytes) /\
   (forall n, (0 < n)%Z -> eff_limit n = n) /\
-  (forall limit total, (Z.of_N (max_read limit total) <= eff_limit limit)%Z /\ (max_read limit total <= total)%N) /\
+  (forall limit body,
+     (Z.of_nat (length (seen limit body)) <= eff_limit limit)%Z /\
+     (exists rest, body = seen limit body ++ rest) /\
+     ((Z.of_nat (length body) <= eff_limit limit)%Z -> seen limit body = body)) /\
   (forall c rs p, handle c rs = inr p ->
      rs_json_ok rs = true /\ (Z.of_N (rs_doc_len rs) <= eff_limit (c_limit c))%Z) /\
   (forall c rs, (eff_limit (c_limit c) < Z.of_N (rs_doc_len rs))%Z -> exists e, handle c rs = inl e) /\
@@ -915,7 +1024,7 @@ Lemma limit_spec :
        rs_json_ok (serve (i + j)%nat rq) = true /\
        (Z.of_N (rs_doc_len (serve (i + j)%nat rq)) <= eff_limit (c_limit c))%Z).
 Proof.
-  split; [exact eff_limit_default|]. split; [exact eff_limit_set|]. split; [exact max_read_le|].
+  split; [exact eff_limit_default|]. split; [exact eff_limit_set|]. split; [exact seen_spec|].
   split; [exact handle_ok_fits|]. split; [exact handle_oversize|]. exact loop_done_all_fit.
 Qed.
 
@@ -929,29 +1038,34 @@ Definition start_rest (c : cfg) (last0 : str) (L : list item) : list item :=
 Theorem listing_limit :
   forall (L : list item) (cap : nat) (ds : nat -> decision)
          (render : nat -> url -> url -> str) (trailer : nat -> str)
-         (resolve : url -> str -> option url) (c : cfg) (path last0 : str) (fuel : nat),
+         (resolve : url -> str -> option url) (c : cfg) (cu : cursor) (npath : nat -> str -> str) (vis : item -> bool)
+         (path last0 : str) (fuel : nat),
+    cursor_ok cu ->
     NoDup (map fst L) -> (forall it, In it L -> fst it <> []) ->
     (forall i base x, In x (map fst L) ->
-       contains c_gt (render i base (link_target (ds i) base x)) = false) ->
+       contains c_gt (render i base (link_target ds cu npath i base x)) = false) ->
     (forall i base x, In x (map fst L) ->
-       resolve base (render i base (link_target (ds i) base x)) = Some (link_target (ds i) base x)) ->
+       resolve base (render i base (link_target ds cu npath i base x)) = Some (link_target ds cu npath i base x)) ->
     (c_kind c = KReferrers -> forall i, qget k_at (d_extra (ds i)) = None) ->
     (length (start_rest c last0 L) < fuel)%nat ->
-    let t := loop (reg_serve (c_kind c) L cap ds render trailer) resolve (fun _ => false) c
+    let t := loop (reg_serve (c_kind c) cu npath vis L cap ds render trailer) resolve (fun _ => false) c
                   fuel 0 0 (mkUrl path (start_query c)) last0 in
     let fit := fun i => (Z.of_N (d_doc_len (ds i)) <= eff_limit (c_limit c))%Z in
-    (t_out t = Done /\ concat (t_pages t) = view c (start_rest c last0 L) /\
+    (t_out t = Done /\ concat (t_pages t) = view c vis (start_rest c last0 L) /\
      forall j, (j < length (t_reqs t))%nat -> fit j) \/
     (t_out t = ErrDecode /\
-     exists n j, concat (t_pages t) = view c (firstn n (start_rest c last0 L)) /\
+     exists n j, concat (t_pages t) = view c vis (firstn n (start_rest c last0 L)) /\
                  length (t_reqs t) = S j /\ ~ fit j /\ forall j', (j' < j)%nat -> fit j').
 Proof.
-  intros L cap ds render trailer resolve c path last0 fuel Hnd Hne Hgt Hres Hex Hfuel.
+  intros L cap ds render trailer resolve c cu npath vis path last0 fuel Hcu Hnd Hne Hgt Hres Hex Hfuel.
   assert (Hsuf : exists pre, L = pre ++ start_rest c last0 L).
   { unfold start_rest. destruct (c_kind c); try apply after_suffix. now exists []. }
   destruct Hsuf as [pre Hpre].
-  assert (Hrest : rest_of L (mk_request c (mkUrl path (start_query c)) last0) = start_rest c last0 L).
-  { unfold rest_of, qget_s, start_rest, start_query. rewrite mk_request_last. cbn [u_query].
+  assert (Hrest : rest_of L cu (mk_request c (mkUrl path (start_query c)) last0) = start_rest c last0 L).
+  { unfold rest_of. rewrite start_cursor
+      by (auto; intros k s E; unfold start_query; destruct (c_kind c); try reflexivity;
+          apply referrers_query_other; rewrite E in Hcu; apply Hcu).
+    unfold qget_s, start_rest, start_query. rewrite mk_request_last. cbn [u_query].
     destruct (c_kind c); cbn [sends_last andb qget].
     - destruct last0; reflexivity.
     - destruct last0; reflexivity.
@@ -960,18 +1074,53 @@ Proof.
                 qget_s k_at (u_query (mk_request c (mkUrl path (start_query c)) last0)) = c_at c).
   { intros K. unfold qget_s, start_query. rewrite mk_request_at. rewrite K. cbn [u_query]. unfold referrers_query.
     destruct (c_at c) as [|x a]; [reflexivity|]. cbn [is_empty qget]. now rewrite str_eqb_refl. }
-  exact (loop_listing_limit L cap ds render trailer resolve c Hnd Hne Hgt Hres Hex
+  exact (loop_listing_limit L cap ds render trailer resolve c cu npath vis Hnd Hne Hgt Hres Hex Hcu
            fuel 0%nat 0%nat (mkUrl path (start_query c)) last0 (start_rest c last0 L) pre Hrest Hpre Hat Hfuel).
 Qed.
 
 (* ---------- referrers tag schema ---------- *)
+
+Lemma clean_index_aux_spec seen items :
+  NoDup (map fst (clean_index_aux seen items)) /\
+  (forall x, In x (clean_index_aux seen items) -> In x items /\ fst x <> [] /\ ~ In (fst x) seen) /\
+  (forall x, In x items -> fst x <> [] -> ~ In (fst x) seen -> In (fst x) (map fst (clean_index_aux seen items))).
+Proof.
+  revert seen. induction items as [|it r IH]; intro seen; simpl.
+  - split; [constructor|]. split; [intros x []|intros x []].
+  - destruct (is_empty (fst it) || existsb (str_eqb (fst it)) seen) eqn:E.
+    + destruct (IH seen) as (N & A & B). split; [exact N|]. split.
+      * intros x H. destruct (A x H) as (A1 & A2 & A3). auto.
+      * intros x [<-|H] Hne Hs; [|now apply B].
+        exfalso. apply orb_true_iff in E as [E|E].
+        -- destruct (fst it); [now apply Hne|discriminate].
+        -- apply existsb_exists in E as (y & Hy & Ey). apply str_eqb_spec in Ey. subst y. contradiction.
+    + apply orb_false_iff in E as [E1 E2].
+      assert (Hne : fst it <> []) by (destruct (fst it); [discriminate|discriminate]).
+      assert (Hns : ~ In (fst it) seen).
+      { intro H. assert (X : existsb (str_eqb (fst it)) seen = true).
+        { apply existsb_exists. exists (fst it). split; [exact H|apply str_eqb_refl]. }
+        congruence. }
+      destruct (IH (fst it :: seen)) as (N & A & B). simpl. split.
+      * constructor; [|exact N]. intro H. apply in_map_iff in H as (x & Ex & Hx).
+        destruct (A x Hx) as (_ & _ & A3). apply A3. left. now symmetry.
+      * split.
+        -- intros x [<-|H]; [auto|]. destruct (A x H) as (A1 & A2 & A3).
+           split; [now right|]. split; [exact A2|]. intro Hs. apply A3. now right.
+        -- intros x [<-|H] Hx Hs; [now left|].
+           destruct (list_eq_dec N.eq_dec (fst x) (fst it)) as [Eq|Nq]; [left; now symmetry|].
+           right. apply B; auto. intros [Eq|Hs']; [apply Nq; now symmetry|contradiction].
+Qed.
+
+Lemma filter_referrers_NoDup l a : NoDup (map fst l) -> NoDup (map fst (filter_referrers l a)).
+Proof. unfold filter_referrers. destruct (is_empty a); [auto|apply NoDup_map_filter]. Qed.
 
 Lemma tag_schema_spec limit size items a cb_fail :
   let r := tag_schema limit true size items a cb_fail in
   ((eff_limit limit < size)%Z -> r = ([], ErrSize)) /\
   ((size <= eff_limit limit)%Z ->
      Forall (fun p => p <> []) (fst r) /\
-     concat (fst r) = filter_referrers items a /\
+     concat (fst r) = filter_referrers (clean_index items) a /\
+     NoDup (map fst (concat (fst r))) /\
      (snd r = Done \/ (snd r = ErrCallback /\ cb_fail 0%nat = true /\ fst r <> [])) /\
      (cb_fail 0%nat = false -> snd r = Done)).
 Proof.
@@ -979,12 +1128,43 @@ Proof.
   - intro H. apply limit_size_spec in H. now rewrite H.
   - intro H. assert (E : limit_size_rejects limit size = false).
     { destruct (limit_size_rejects limit size) eqn:E; [|reflexivity]. apply limit_size_spec in E. lia. }
-    rewrite E. destruct (filter_referrers items a) as [|x f] eqn:F.
-    + simpl. repeat split; auto.
+    rewrite E.
+    pose proof (filter_referrers_NoDup (clean_index items) a (proj1 (clean_index_aux_spec [] items))) as ND.
+    destruct (filter_referrers (clean_index items) a) as [|x f] eqn:F.
+    + simpl. repeat split; auto; constructor.
     + destruct (cb_fail 0%nat) eqn:C; simpl; rewrite app_nil_r.
-      * split; [repeat constructor; discriminate|]. split; [reflexivity|]. split; [|discriminate].
+      * split; [repeat constructor; discriminate|]. split; [reflexivity|]. split; [exact ND|]. split; [|discriminate].
         right. split; [reflexivity|]. split; [reflexivity|discriminate].
-      * split; [repeat constructor; discriminate|]. split; [reflexivity|]. split; [now left|reflexivity].
+      * split; [repeat constructor; discriminate|]. split; [reflexivity|]. split; [exact ND|]. split; [now left|reflexivity].
+Qed.
+
+(* what the cleaned index holds: every non-empty name of the index exactly once, with the
+   attributes of its first entry; nothing else *)
+Lemma clean_index_spec items :
+  NoDup (map fst (clean_index items)) /\
+  (forall x, In x (clean_index items) -> In x items /\ fst x <> []) /\
+  (forall x, In x items -> fst x <> [] -> In (fst x) (map fst (clean_index items))) /\
+  (NoDup (map fst items) -> (forall x, In x items -> fst x <> []) -> clean_index items = items).
+Proof.
+  unfold clean_index. destruct (clean_index_aux_spec [] items) as (N & A & B).
+  split; [exact N|]. split; [intros x H; destruct (A x H) as (A1 & A2 & _); auto|].
+  split; [intros x H Hne; apply B; auto|].
+  assert (G : forall (l : list item) seen, NoDup (map fst l) -> (forall x, In x l -> fst x <> []) ->
+              (forall x, In x l -> ~ In (fst x) seen) -> clean_index_aux seen l = l).
+  { clear. induction l as [|it r IH]; intros seen Hnd Hne Hs; cbn [clean_index_aux]; [reflexivity|].
+    inversion Hnd as [|? ? Hn Hd]; subst.
+    assert (E1 : is_empty (fst it) = false).
+    { destruct (fst it) eqn:E; [exfalso; apply (Hne it); [now left|exact E]|reflexivity]. }
+    assert (E2 : existsb (str_eqb (fst it)) seen = false).
+    { destruct (existsb (str_eqb (fst it)) seen) eqn:E; [|reflexivity].
+      apply existsb_exists in E as (y & Hy & Ey). apply str_eqb_spec in Ey. subst y.
+      exfalso. apply (Hs it); [now left|exact Hy]. }
+    rewrite E1, E2. cbn [orb]. f_equal. simpl in Hnd. apply IH; auto.
+    - intros x Hx. apply Hne. now right.
+    - intros x Hx [Eq|Hi].
+      + apply Hn. rewrite Eq. now apply in_map.
+      + apply (Hs x); [now right|exact Hi]. }
+  intros Hnd Hne. apply G; auto.
 Qed.
 
 Lemma tag_schema_absent limit size items a cb_fail :
@@ -1000,25 +1180,26 @@ Proof. rewrite <- concat_app. now rewrite firstn_skipn. Qed.
 Theorem listing_prefix_any_callback :
   forall (L : list item) (cap : nat) (ds : nat -> decision)
          (render : nat -> url -> url -> str) (trailer : nat -> str)
-         (resolve : url -> str -> option url) (c : cfg) (cb_fail : nat -> bool)
-         (path last0 : str) (fuel : nat),
+         (resolve : url -> str -> option url) (c : cfg) (cu : cursor) (npath : nat -> str -> str) (vis : item -> bool)
+         (cb_fail : nat -> bool) (path last0 : str) (fuel : nat),
+    cursor_ok cu ->
     c_kind c <> KReferrers ->
     NoDup (map fst L) -> (forall it, In it L -> fst it <> []) ->
     (forall i base x, In x (map fst L) ->
-       contains c_gt (render i base (link_target (ds i) base x)) = false) ->
+       contains c_gt (render i base (link_target ds cu npath i base x)) = false) ->
     (forall i base x, In x (map fst L) ->
-       resolve base (render i base (link_target (ds i) base x)) = Some (link_target (ds i) base x)) ->
+       resolve base (render i base (link_target ds cu npath i base x)) = Some (link_target ds cu npath i base x)) ->
     (forall i, (Z.of_N (d_doc_len (ds i)) <= eff_limit (c_limit c))%Z) ->
     (length (after last0 L) < fuel)%nat ->
-    let t := loop (reg_serve (c_kind c) L cap ds render trailer) resolve cb_fail c
+    let t := loop (reg_serve (c_kind c) cu npath vis L cap ds render trailer) resolve cb_fail c
                   fuel 0 0 (mkUrl path []) last0 in
-    (t_out t = Done /\ concat (t_pages t) = after last0 L) \/
-    (t_out t = ErrCallback /\ exists rest', after last0 L = concat (t_pages t) ++ rest').
+    (t_out t = Done /\ concat (t_pages t) = filter vis (after last0 L)) \/
+    (t_out t = ErrCallback /\ exists rest', filter vis (after last0 L) = concat (t_pages t) ++ rest').
 Proof.
-  intros L cap ds render trailer resolve c cb_fail path last0 fuel K Hnd Hne Hgt Hres Hfit Hfuel.
-  destruct (listing_exactly_once L cap ds render trailer resolve c path last0 fuel K Hnd Hne Hgt Hres Hfit Hfuel)
+  intros L cap ds render trailer resolve c cu npath vis cb_fail path last0 fuel Hcu K Hnd Hne Hgt Hres Hfit Hfuel.
+  destruct (listing_exactly_once L cap ds render trailer resolve c cu npath vis path last0 fuel Hcu K Hnd Hne Hgt Hres Hfit Hfuel)
     as (O & P & _ & _).
-  destruct (loop_fail_prefix (reg_serve (c_kind c) L cap ds render trailer) resolve c cb_fail
+  destruct (loop_fail_prefix (reg_serve (c_kind c) cu npath vis L cap ds render trailer) resolve c cb_fail
               fuel 0%nat 0%nat (mkUrl path []) last0) as [[E _]|(n & m & O1 & _ & P1 & _)].
   - left. cbv zeta. rewrite E. auto.
   - right. cbv zeta. split; [exact O1|]. rewrite P1. rewrite <- P.
@@ -1099,7 +1280,7 @@ Qed.
 Definition wit_L : list item := [(b "a", b "t"); (b "b", b "t"); (b "c", b "t")].
 Definition wit_ds (i : nat) : decision := mkDec 1 [] false [] [] 10 0.
 Definition wit_render (i : nat) (base tgt : url) : str := qget_s k_last (u_query tgt).
-Definition wit_resolve (base : url) (t : str) : option url := Some (link_target (wit_ds 0) base t).
+Definition wit_resolve (base : url) (t : str) : option url := Some (link_url CLast (u_path base) (wit_ds 0) base t).
 Definition wit_cfg : cfg := mkCfg KReferrers 0 0 [].
 Definition wit_u : url := mkUrl (b "/v2/r/referrers/d") [].
 Definition wit_ts (cb_fail : nat -> bool) (k : nat) :=
@@ -1110,7 +1291,7 @@ Definition wit_ts (cb_fail : nat -> bool) (k : nat) :=
    (same referrer "a" delivered twice) and returned success *)
 Lemma wrap_prefix_refuted :
   exists (cb_fail : nat -> bool),
-    let api := loop (reg_serve KReferrers wit_L 5 wit_ds wit_render (fun _ => [])) wit_resolve
+    let api := loop (reg_serve KReferrers CLast (fun _ p => p) (fun _ => true) wit_L 5 wit_ds wit_render (fun _ => [])) wit_resolve
                     cb_fail wit_cfg 9 0 0 wit_u [] in
     let w := referrers_wrap_prefix RUnknown true api (wit_ts cb_fail) in
     t_out api = ErrCallback /\ w_out w = Done /\ w_state w = RUnsupported /\
@@ -1123,7 +1304,7 @@ Qed.
 (* the same scenario with the fixed wrapper *)
 Lemma wrap_fixed_witness :
   let cb_fail := fun k => (k =? 0)%nat in
-  let api := loop (reg_serve KReferrers wit_L 5 wit_ds wit_render (fun _ => [])) wit_resolve
+  let api := loop (reg_serve KReferrers CLast (fun _ p => p) (fun _ => true) wit_L 5 wit_ds wit_render (fun _ => [])) wit_resolve
                   cb_fail wit_cfg 9 0 0 wit_u [] in
   let w := referrers_wrap RUnknown true api (wit_ts cb_fail) in
   w_out w = ErrCallback /\ w_state w = RUnknown /\ map (map fst) (w_pages w) = [[b "a"]].
@@ -1132,7 +1313,7 @@ Proof. vm_compute. repeat split. Qed.
 (* a registry that is legal per RFC 8288 but puts a rel="first" link-value before the next
    link: the client follows the first link-value, re-reads the first page and never ends *)
 Definition relfirst_serve (i : nat) (rq : url) : response :=
-  let rs := reg_serve KTags wit_L 5 wit_ds wit_render (fun _ => b "; rel=""next""") i rq in
+  let rs := reg_serve KTags CLast (fun _ p => p) (fun _ => true) wit_L 5 wit_ds wit_render (fun _ => b "; rel=""next""") i rq in
   match rs_links rs with
   | [] => rs
   | l :: more =>
@@ -1203,24 +1384,26 @@ Qed.
 Theorem referrers_unknown_with_api :
   forall (L : list item) (cap : nat) (ds : nat -> decision)
          (render : nat -> url -> url -> str) (trailer : nat -> str)
-         (resolve : url -> str -> option url) (c : cfg) (path : str) (fuel : nat) cbu ts,
+         (resolve : url -> str -> option url) (c : cfg) (cu : cursor) (npath : nat -> str -> str) (vis : item -> bool)
+         (path : str) (fuel : nat) cbu ts,
+    cursor_ok cu ->
     c_kind c = KReferrers ->
     NoDup (map fst L) -> (forall it, In it L -> fst it <> []) ->
     (forall i base x, In x (map fst L) ->
-       contains c_gt (render i base (link_target (ds i) base x)) = false) ->
+       contains c_gt (render i base (link_target ds cu npath i base x)) = false) ->
     (forall i base x, In x (map fst L) ->
-       resolve base (render i base (link_target (ds i) base x)) = Some (link_target (ds i) base x)) ->
+       resolve base (render i base (link_target ds cu npath i base x)) = Some (link_target ds cu npath i base x)) ->
     (forall i, (Z.of_N (d_doc_len (ds i)) <= eff_limit (c_limit c))%Z) ->
     (forall i, qget k_at (d_extra (ds i)) = None) ->
     (length L < fuel)%nat ->
-    let api := loop (reg_serve KReferrers L cap ds render trailer) resolve (fun _ => false) c
+    let api := loop (reg_serve KReferrers cu npath vis L cap ds render trailer) resolve (fun _ => false) c
                     fuel 0 0 (mkUrl path (referrers_query (c_at c))) [] in
     let w := referrers_wrap RUnknown cbu api ts in
-    w_out w = Done /\ concat (w_pages w) = filter_referrers L (c_at c) /\
+    w_out w = Done /\ concat (w_pages w) = filter_referrers (filter vis L) (c_at c) /\
     w_state w = RSupported /\ w_fell_back w = false.
 Proof.
-  intros L cap ds render trailer resolve c path fuel cbu ts K Hnd Hne Hgt Hres Hfit Hex Hfuel.
-  destruct (referrers_exactly_once L cap ds render trailer resolve c path fuel K Hnd Hne Hgt Hres Hfit Hex Hfuel)
+  intros L cap ds render trailer resolve c cu npath vis path fuel cbu ts Hcu K Hnd Hne Hgt Hres Hfit Hex Hfuel.
+  destruct (referrers_exactly_once L cap ds render trailer resolve c cu npath vis path fuel Hcu K Hnd Hne Hgt Hres Hfit Hex Hfuel)
     as (O & P & _).
   cbv zeta. unfold referrers_wrap. rewrite O. cbn [w_out w_pages w_state w_fell_back]. auto.
 Qed.
@@ -1247,3 +1430,89 @@ Proof.
   rewrite E. unfold referrers_wrap. cbn [t_out unsupported_class no_pages t_pages andb t_reqs w_reqs w_fell_back w_state w_pages w_out length].
   auto.
 Qed.
+
+(* ---------- concrete instances showing that the hypotheses of the theorems are satisfiable ---------- *)
+
+Definition ex_L : list item := [(b "a", b "t1"); (b "b", b "t2"); (b "c", b "t1"); (b "d", b "t1")].
+Definition ex_ds (i : nat) : decision :=
+  mkDec (1 + Nat.modulo i 2) [(b "x", VS (b "1"))] (Nat.even i) [] (if Nat.even i then [] else b "foo,artifactType") 10 1.
+(* link text = the cursor; the toy resolver rebuilds the target from it *)
+Definition ex_render (i : nat) (base tgt : url) : str := qget_s k_last (u_query tgt).
+Definition ex_resolve (base : url) (t : str) : option url := Some (link_url CLast (u_path base) (ex_ds 0) base t).
+Definition ex_cfg (k : kind) : cfg := mkCfg k 3 100 (b "t1").
+
+
+Lemma example_hypotheses :
+  NoDup (map fst ex_L) /\ (forall it, In it ex_L -> fst it <> []) /\
+  (forall i base x, In x (map fst ex_L) ->
+     contains c_gt (ex_render i base (link_target ex_ds CLast (fun _ p => p) i base x)) = false) /\
+  (forall i base x, In x (map fst ex_L) ->
+     ex_resolve base (ex_render i base (link_target ex_ds CLast (fun _ p => p) i base x)) = Some (link_target ex_ds CLast (fun _ p => p) i base x)) /\
+  (forall i, (Z.of_N (d_doc_len (ex_ds i)) <= eff_limit (c_limit (ex_cfg KTags)))%Z) /\
+  (forall i, qget k_at (d_extra (ex_ds i)) = None).
+Proof.
+  split. { repeat constructor; simpl; intuition discriminate. }
+  split. { simpl. intros it H. repeat (destruct H as [<-|H]; [discriminate|]). contradiction. }
+  split. { intros i base x H. unfold ex_render, link_target, link_url, qget_s. cbn [u_query qget ckey cenc]. rewrite str_eqb_refl.
+           simpl in H. repeat (destruct H as [<-|H]; [reflexivity|]). contradiction. }
+  split. { intros i base x _. unfold ex_resolve, ex_render, link_target, link_url, qget_s. cbn [u_query qget ckey cenc].
+           rewrite str_eqb_refl. reflexivity. }
+  split. { intro i. vm_compute. discriminate. }
+  intro i. reflexivity.
+Qed.
+
+(* an opaque cursor: key "token", value "p;" ++ name, next pages under <path>/~p *)
+(* entry "c" is not shown: with one-item pages its page is empty although a link follows *)
+Definition ex_vis (it : item) : bool := negb (str_eqb (fst it) (b "c")).
+Definition ex_cu : cursor := CToken (b "token") (b "p;").
+Definition ex_npath (i : nat) (p : str) : str := b "/v2/r/tags/list/~p".
+Definition ex_render_tok (i : nat) (base tgt : url) : str := qget_s (b "token") (u_query tgt).
+Definition ex_resolve_tok (base : url) (t : str) : option url :=
+  Some (link_url ex_cu (ex_npath 0 []) (ex_ds 0) base (strip (b "p;") t)).
+
+Lemma example_token_hypotheses :
+  cursor_ok ex_cu /\
+  (forall i base x, In x (map fst ex_L) ->
+     contains c_gt (ex_render_tok i base (link_target ex_ds ex_cu ex_npath i base x)) = false) /\
+  (forall i base x, In x (map fst ex_L) ->
+     ex_resolve_tok base (ex_render_tok i base (link_target ex_ds ex_cu ex_npath i base x)) = Some (link_target ex_ds ex_cu ex_npath i base x)).
+Proof.
+  split. { simpl. repeat split; discriminate. }
+  split. { intros i base x H. unfold ex_render_tok, link_target, link_url, qget_s. cbn [u_query qget ckey cenc ex_cu].
+           rewrite str_eqb_refl. simpl in H. repeat (destruct H as [<-|H]; [reflexivity|]). contradiction. }
+  intros i base x _. unfold ex_resolve_tok, ex_render_tok, link_target, link_url, qget_s. cbn [u_query qget ckey cenc ex_cu].
+  rewrite str_eqb_refl. rewrite strip_app. reflexivity.
+Qed.
+
+(* a toy stream decoder: the value is everything up to the first '}' *)
+Fixpoint ex_decode (s : str) : option str :=
+  match s with
+  | [] => None
+  | ch :: s' => if ch =? 125 then Some [ch]
+               else match ex_decode s' with Some v => Some (ch :: v) | None => None end
+  end.
+
+
+Lemma example_document : is_document str ex_decode (b "{ab}") (b "{ab}").
+Proof.
+  split.
+  - intro tail. reflexivity.
+  - intros k H. simpl in H. do 4 (destruct k as [|k]; [reflexivity|]). lia.
+Qed.
+
+(* ---------- witness: the lossy query of the code before fix 635f618 ---------- *)
+
+(* a pair survives url.ParseQuery only without ';' (59) in its value *)
+Definition wit_parses (kv : str * qval) : bool :=
+  match snd kv with VS v => negb (contains 59 v) | VN _ => true end.
+
+(* the registry continues with token=p;b; with a page size configured the request built by
+   the old code has lost the cursor (the registry starts again from the top), the fixed code
+   keeps it; without a page size both forward the link untouched *)
+Lemma lossy_query_refuted :
+  let link := mkUrl (b "/v2/r/tags/list") [(b "token", VS (b "p;b")); (b "x", VS (b "1"))] in
+  let cu := CToken (b "token") (b "p;") in
+  cursor_read cu (u_query (mk_request_prefix wit_parses (mkCfg KTags 2 0 []) link [])) = [] /\
+  cursor_read cu (u_query (mk_request (mkCfg KTags 2 0 []) link [])) = b "b" /\
+  mk_request_prefix wit_parses (mkCfg KTags 0 0 []) link [] = link.
+Proof. vm_compute. repeat split. Qed.
